@@ -20,7 +20,7 @@ from .. import seams
 from ..compile import World
 from ..ctx import RunTooBig
 from ..history import History, canon, canon_outcome, digest
-from ..rng import Streams, chance, pick, weighted
+from ..rng import Streams, chance, pick, weighted, steps
 from ..sim import apply_op, form_of, build_sim, locations, observing
 from ..world import gen_entities, gen_situation
 from . import Result
@@ -107,7 +107,8 @@ def sub_periods(text, def_unit):
 # --------------------------------------------------------------------------- #
 
 LONG = {
-    "month": ["2018", "2019", "year:2018-07", "year:2017:2", "month:2018-01:3", "month:2018-11:4", "year:2019-03", "month:2018-06:12"],
+    "month": ["2018", "2019", "year:2018-07", "year:2017:2", "month:2018-01:3", "month:2018-11:4", "year:2019-03", "month:2018-06:12",
+              "month:2016-12:14", "year:2017:3", "month:2017-06:20"],
     "day": ["2018-02", "2020-02", "2018-01", "2018-04", "month:2018-01:2", "day:2018-02-26:5", "day:2018-01-01:10", "month:2018-01-15", "2019",
             "year:2019-03", "year:2019-07", "year:2020-03", "2020"],
     "year": ["year:2018:2", "year:2017:3", "year:2018:3", "year:2018-07:2", "year:2017-03:3"],
@@ -188,7 +189,7 @@ def generate(seed: int, tier: str) -> dict:
     orr = st["ops"]
     writers = [f"W{k}" for k in range(1, orr.randint(2, 6) + 1)]
     ops = []
-    for _ in range(orr.randint(3, 10 if tier == "quick" else 16)):
+    for _ in range(steps(orr, 3, 10 if tier == "quick" else 16)):
         v = pick(orr, variables)
         r = orr.random()
         u = v["unit"]
